@@ -117,7 +117,7 @@ def rand_fcx(rng, nonzero=False):
 
 def corr_blocks(ctx, dec, reqs, pend):
     rng = ctx.rng
-    for _ in range(ctx.n(300, 1500)):
+    for _ in range(ctx.n(600, 6000)):
         N = rng.randint(2, 6)
         c, s = circle(rng)
         e = circle(rng)
@@ -146,7 +146,7 @@ def corr_blocks(ctx, dec, reqs, pend):
 def corr_null(ctx, dec, reqs, pend):
     """null helpers: which pair, which branch, and the matrix after the mix (target entry exactly 0 in the model)"""
     rng = ctx.rng
-    for _ in range(ctx.n(400, 2000)):
+    for _ in range(ctx.n(800, 8000)):
         N = rng.randint(2, 5)
         helper = rng.choice(["nullTi", "nullT", "nullMZi", "nullMZ"])
         branch = rng.choice(["generic", "generic", "zero", "swap"])
@@ -269,7 +269,7 @@ def corr_exact(ctx, dec, reqs, pend):
     """signed/phased permutation matrices: only the exact-zero and swap branches occur; compare the branch taken at
     every step and the final diagonal with the model's exact run"""
     rng = ctx.rng
-    for _ in range(ctx.n(150, 600)):
+    for _ in range(ctx.n(300, 2400)):
         n = rng.randint(1, 6)
         perm = list(range(n))
         rng.shuffle(perm)
@@ -678,7 +678,7 @@ def invalid_unitaries(rs, n):
 
 def oracle_reject(ctx, dec):
     rs = ctx.nprng(5)
-    for _ in range(ctx.n(50, 250)):
+    for _ in range(ctx.n(100, 1000)):
         n = int(rs.integers(3, 7))
         for kind, A in invalid_unitaries(rs, n).items():
             for m in MESHES:
@@ -710,7 +710,7 @@ def oracle_valid(ctx, dec):
     rs = ctx.nprng(3)
     big = ctx.tier != "quick"
     # meshes
-    for it in range(ctx.n(1100, 6000)):
+    for it in range(ctx.n(2200, 24000)):
         kind = D.UNITARY_KINDS[it % len(D.UNITARY_KINDS)]
         n = int(rs.integers(1, 9)) if (it // len(D.UNITARY_KINDS)) % 4 else int(rs.integers(1, 5))
         if big and it % 50 == 0:
@@ -723,22 +723,22 @@ def oracle_valid(ctx, dec):
                 continue
             judge(ctx, dec, mesh, kind, U)
     # takagi
-    for it in range(ctx.n(2600, 15000)):
+    for it in range(ctx.n(5200, 60000)):
         kind = D.SYMMETRIC_KINDS[it % len(D.SYMMETRIC_KINDS)]
         n = int(rs.integers(1, 9))
         judge(ctx, dec, "takagi", kind, D.symmetric_case(rs, n, kind))
     # williamson
-    for it in range(ctx.n(1000, 6000)):
+    for it in range(ctx.n(2000, 24000)):
         kind = D.COV_KINDS[it % len(D.COV_KINDS)]
         n = int(rs.integers(1, 6))
         judge(ctx, dec, "williamson", kind, D.cov_case(rs, n, kind))
     # bloch-messiah
-    for it in range(ctx.n(1500, 8000)):
+    for it in range(ctx.n(3000, 32000)):
         kind = D.SYMPLECTIC_KINDS[it % len(D.SYMPLECTIC_KINDS)]
         n = int(rs.integers(1, 6))
         judge(ctx, dec, "bloch_messiah", kind, D.symplectic_case(rs, n, kind))
     # graph embeddings
-    for it in range(ctx.n(1100, 6000)):
+    for it in range(ctx.n(2200, 24000)):
         kind = D.SYMMETRIC_KINDS[it % len(D.SYMMETRIC_KINDS)]
         if kind == "near_degenerate":      # same takagi call as above; kept out so that the finding has one signature
             continue
@@ -750,7 +750,7 @@ def oracle_valid(ctx, dec):
             continue
         mp = float(rs.choice([0.1, 0.5, 1.0, 2.5]))
         judge(ctx, dec, "graph_embed", kind, A, dict(mp=mp, traceless=traceless))
-    for it in range(ctx.n(1100, 6000)):
+    for it in range(ctx.n(2200, 24000)):
         kind = BIPARTITE_KINDS[it % len(BIPARTITE_KINDS)]
         n = int(rs.integers(1, 8))
         A = bipartite_case(rs, n, kind)
